@@ -13,7 +13,7 @@ from vlib.runner import Violation, sut
 from vlib.spec import build
 
 ID = "C10"
-BUDGET = {"quick": 640, "thorough": 8000}
+BUDGET = {"quick": 640, "thorough": 16000}
 RULE = ("Generated: 1..2 skeleton-sharing base circuits (<= 3 variables; categorical / embedding / Gaussian inputs, or "
         "polynomial inputs) and an operator pipeline of 1..3 operators (integrate, multiply, differentiate, conjugate, "
         "evidence, concatenate) x semiring x fold x optimize, plus a drawn history of 3..10 (quick) / ..30 (thorough) "
